@@ -525,6 +525,8 @@ CHECKS = {
     'C13': {
         'level': 'model_checking',
         'jobs': [
+            C('corescn', 'TestCore', 'TraceCore', file='core', n={'quick': 150, 'thorough': 4000},
+              scn=[('MC_CoreScn', {'quick': ['CoreScn_as.cfg'], 'thorough': ['CoreScn_as.cfg', 'CoreScn_sy.cfg']})]),
             T('MC_Inproc', 'Inproc.cfg'), C('inproc', 'TestInproc', 'TraceInproc'),
             T('MC_Handshaker', 'Handshaker.cfg'), C('handshaker', 'TestHandshaker', 'TraceHandshaker'),
             T('MC_Core', 'Core_C13.cfg'),
@@ -538,6 +540,8 @@ CHECKS = {
     'C14': {
         'level': 'model_checking',
         'jobs': [
+            C('corescn', 'TestCore', 'TraceCore', file='core', n={'quick': 150, 'thorough': 4000},
+              scn=[('MC_CoreScn', {'quick': ['CoreScn_as.cfg'], 'thorough': ['CoreScn_as.cfg', 'CoreScn_sy.cfg']})]),
             C('errors', 'TestErrorsReal', 'TraceErrors'),
             T('MC_Inproc', 'Inproc.cfg'), C('inproc', 'TestInproc', 'TraceInproc'),
             T('MC_Core', 'Core_C14_async.cfg'),
